@@ -163,6 +163,6 @@ ReplayRecord ==
 
 Replay == Terminal => PrintT(<<"REPLAY", ToJson(ReplayRecord)>>)
 
-View == <<input, phase, added, mods, reg, start, todo, err, out>>
+View == StdView
 
 =============================================================================
